@@ -22,6 +22,7 @@ EXPLANATION = (
     ' R20.7 wherever the name buffer is right-padded the number of spaces appended has a lower bound >= 1 over its canonical value expression (gap + saturating difference; lengths, counts and saturating differences are >= 0), so a name and the first column never run together, whatever the name length and the current span. R20.8 continuation blocks belong to their label (per-variant arrays read at the labelled item\'s own index; X::ALL in declaration order). R20.9 TreeColumn::is_time_stat() is true for exactly the columns get_stat() has a statistic for; is_first()/is_last() name the first/last element of TreeColumn::ALL. R20.10 a leaf is closed with the position it was opened with: finish_leaf\'s is_last ranges over exactly the positions given to the start_leaf calls that can precede it. R20.11 rows that share one label are shown together or not at all: the optional rows printed as one block under a single label are present under the same condition. R20.12 (= R15.4) each thread-count branch is printed exactly once: the list the t=N leaves are painted from is sorted and then de-duplicated after 0 was resolved.')
 EXPLANATION += (' R20.13 (= R18.2) throughput continuation rows are scaled with the table that belongs to the suffix printed next to them.')
 EXPLANATION += (" R20.14 (= R17.1/R17.3) the typed bench function comes from the instantiation's own runner on every call.")
+EXPLANATION += (" R20.15 (= R12.3, expansions) a bench_group's entry carries the module's raw name as module_path!() spells it.")
 NOT_DECIDED = ["the rendered text itself beyond R20.3 (glyph/prefix widths) and R20.7 (the name/column gap never vanishes): column padding arithmetic, display widths of non-ASCII names"]
 
 P = "tree_painter::TreePainter::"
